@@ -24,6 +24,18 @@ Oracle : the stored messages (plain dicts, never toolkit objects) and their end 
          not choose: [] / False / None are all accepted (what the code returns is counted
          in the evidence).
 
+Interleaved leg (one DATADumpFile object that is written AND read): every history
+  r0, A1, r1, A2, r2 [, A3, r3] in which append steps (append_msg(m) / append_all([m, m']))
+  and read steps (nothing, parse_msg(i), parse_all(), parse_all(skip, count) incl. pages that
+  reach past the end) alternate on the same object, on (a) a real file opened by path ("a+b")
+  in a private directory under /verif/build and (b) an io.BytesIO handed to the constructor.
+  Oracle: every read returns exactly the messages appended so far (sliced), field-equal, and
+  a fresh reader on the finished capture sees all of them.  Every history runs twice: with the
+  harness moving the file position to the end before each append step (what fails there is
+  the reader's own state: keys C15:interleaved:<file|bytesio>:reader-state:...) and, if that
+  run is clean, as plain API use (what fails only there comes from where an append after a
+  read lands: keys C15:interleaved:<file|bytesio>:append-position:...).
+
 A capture file is a pure function of its octets for the reader, and the truncated image
 of history h cut inside (or at the end of) its i-th record is octet-identical to the
 image of h[:i] cut at the same offset (this prefix stability is checked, not assumed).
@@ -33,6 +45,8 @@ history that produces it, with the skip/count/index ranges of the longest histor
 import io
 import itertools
 import logging
+import os
+import shutil
 from array import array
 
 from vlib import world
@@ -420,6 +434,227 @@ def work(arg):
     return res
 
 
+# ---------------------------------------------------------------------------
+# interleaved leg: appends and reads alternate on ONE DATADumpFile object
+
+IL_MENU = [0, 10, 5, 2]          # Tx v0 148 (157 octets), Rx v1 NOPE (14), Rx v1 8-PSK (458), Rx v0 148 (159)
+_msg_cache = {}
+
+
+def il_msg(idx, pos):
+    k = (idx, pos)
+    if k not in _msg_cache:
+        e = stored_entry(idx, pos)
+        _msg_cache[k] = (e, build_msg(e))
+    return _msg_cache[k]
+
+
+def il_append_options(nmenu, all_pairs):
+    menu = IL_MENU[:nmenu]
+    opts = [["msg", m] for m in menu]
+    if all_pairs:
+        opts += [["all", [a, b]] for a in menu for b in menu]
+    else:
+        opts += [["all", [menu[i], menu[(i + 1) % nmenu]]] for i in range(nmenu)]
+    return opts
+
+
+def il_reads_full(n):
+    """every kind of read step when n messages have been appended (None = no read)"""
+    ops = [None] + [["msg", i] for i in range(n + 2)] + [["all", None, None, True]]
+    counts = [None, 1, 2] + ([n + 1] if n + 1 > 2 else [])
+    for skip in [None] + list(range(n + 2)):
+        for count in counts:
+            ops.append(["all", skip, count, False])
+    return ops
+
+
+def il_reads_small(n):
+    ops = [None, ["msg", 0], ["msg", max(n - 1, 0)], ["all", None, None, True], ["all", max(n - 1, 0), 2, False],
+           ["all", 0, 1, False], ["all", n, 1, False]]
+    out = []
+    for o in ops:
+        if o not in out:
+            out.append(o)
+    return out
+
+
+class Capture:
+    """one capture under test: a real file opened by path, or a BytesIO"""
+
+    def __init__(self, backend, directory):
+        dd = env()["dd"]
+        self.backend = backend
+        self.path = None
+        if backend == "file":
+            self.path = os.path.join(directory, "capture.bin")
+            if os.path.exists(self.path):
+                os.unlink(self.path)
+            self.d = dd.DATADumpFile(self.path)
+        else:
+            self.bio = io.BytesIO()
+            self.d = dd.DATADumpFile(self.bio)
+
+    def content(self):
+        if self.backend == "file":
+            self.d.f.flush()
+            with open(self.path, "rb") as f:
+                return f.read()
+        return self.bio.getvalue()
+
+    def close(self):
+        try:
+            self.d.f.close()
+        except Exception:
+            pass
+        if self.path and os.path.exists(self.path):
+            os.unlink(self.path)
+
+
+def run_interleaved(backend, directory, steps, out, cov, stats, at_end=False):
+    """Execute one history; steps: ['msg', m] | ['all', [m, ..]] | ['read', op] ; every read is judged.
+    at_end=True: the harness itself moves the file position to the end before every append step, so that
+    whatever goes wrong in such a run is not caused by where an append after a read lands (key part
+    'reader-state'); at_end=False is the plain API use (key part 'append-position')."""
+    cap = Capture(backend, directory)
+    stored = []
+    cause = "reader-state" if at_end else "append-position"
+    backend_key = "%s:%s" % (backend, cause)
+    case = {"leg": "interleaved", "backend": backend, "steps": steps, "at_end": at_end}
+    cov["interleaved_histories"] += 1
+    try:
+        for si, st in enumerate(steps):
+            if st[0] == "read":
+                op = st[1]
+                op = ("msg", op[1]) if op[0] == "msg" else ("all", op[1], op[2], bool(op[3]))
+                tmp = []
+                nonempty = judge_op(cap.d, op, stored, len(stored), "-", tmp, case, stats)
+                cov["evaluations"] += 1
+                cov["interleaved_reads"] += 1
+                if nonempty:
+                    cov["distinct_nontrivial"] += 1
+                for key, c, msg in tmp:
+                    what = ":".join(key.split(":")[1:-1])
+                    out.append(("C15:interleaved:%s:%s" % (backend_key, what), case,
+                                "step %d of %s on one DATADumpFile (%s%s): %s"
+                                % (si, describe(steps), backend, ", position moved to the end before each append"
+                                   if at_end else "", msg)))
+                continue
+            try:
+                if at_end:
+                    cap.d.f.seek(0, 2)
+                if st[0] == "msg":
+                    e, m = il_msg(st[1], len(stored))
+                    cap.d.append_msg(m)
+                    stored.append(e)
+                else:
+                    ems = [il_msg(x, len(stored) + j) for j, x in enumerate(st[1])]
+                    cap.d.append_all([m for _, m in ems])
+                    stored += [e for e, _ in ems]
+            except BaseException as ex:
+                out.append(("C15:interleaved:%s:append:raises-%s" % (backend_key, type(ex).__name__), case,
+                            "step %d of %s: append raised %s: %s" % (si, describe(steps), type(ex).__name__, ex)))
+                return
+        # a fresh reader on the finished capture must see everything that was appended
+        dd = env()["dd"]
+        fresh = dd.DATADumpFile(io.BytesIO(cap.content()))
+        tmp = []
+        judge_op(fresh, ("all", None, None, True), stored, len(stored), "-", tmp, case, stats)
+        cov["evaluations"] += 1
+        cov["distinct_nontrivial"] += 1 if stored else 0
+        for key, c, msg in tmp:
+            what = ":".join(key.split(":")[1:-1])
+            out.append(("C15:interleaved:%s:fresh-reader:%s" % (backend_key, what), case,
+                        "after %s on one DATADumpFile (%s) a fresh reader of the capture: %s"
+                        % (describe(steps), backend, msg)))
+    finally:
+        cap.close()
+
+
+def describe(steps):
+    def one(st):
+        if st[0] == "msg":
+            return "append_msg(%s)" % MENU_NAMES[st[1]]
+        if st[0] == "all":
+            return "append_all([%s])" % ", ".join(MENU_NAMES[x] for x in st[1])
+        op = st[1]
+        if op[0] == "msg":
+            return "parse_msg(%d)" % op[1]
+        return "parse_all()" if op[3] else "parse_all(%r, %r)" % (op[1], op[2])
+    return "; ".join(one(st) for st in steps)
+
+
+def work_interleaved(arg):
+    backend, appends, mode = arg
+    env()
+    out, stats = [], {"idx_beyond": {}, "skip_beyond": {}, "skip_at_end": {}}
+    cov = {"evaluations": 0, "distinct_nontrivial": 0, "interleaved_histories": 0, "interleaved_reads": 0}
+    directory = None
+    if backend == "file":
+        from vlib.runner import VERIF
+        directory = os.path.join(VERIF, "build", "c15.%d" % os.getpid())
+        os.makedirs(directory, exist_ok=True)
+    try:
+        k = len(appends)
+        ns = []
+        n = 0
+        for a in appends:
+            n += 1 if a[0] == "msg" else len(a[1])
+            ns.append(n)
+        # read alphabets: the last read step takes every kind of read; earlier ones too when mode == 'full'
+        # r0, on the empty capture (varied for one and two append steps only)
+        alph = [[None, ["all", None, None, True], ["msg", 0]] if k <= 2 else [None]]
+        for i, n in enumerate(ns):
+            alph.append(il_reads_full(n) if (mode == "full" or i == k - 1) else il_reads_small(n))
+        for reads in itertools.product(*alph):
+            steps = []
+            if reads[0] is not None:
+                steps.append(["read", reads[0]])
+            for a, r in zip(appends, reads[1:]):
+                steps.append(a)
+                if r is not None:
+                    steps.append(["read", r])
+            # first with the position forced to the end before each append: failures there are the reader's;
+            # if that run is clean, the plain run: failures there come from where the append lands
+            tmp = []
+            run_interleaved(backend, directory, steps, tmp, cov, stats, at_end=True)
+            if tmp:
+                out += tmp
+            else:
+                run_interleaved(backend, directory, steps, out, cov, stats, at_end=False)
+    finally:
+        if directory:
+            shutil.rmtree(directory, ignore_errors=True)
+    cov["interleaved_%s_histories" % backend] = cov["interleaved_histories"]
+    # shortest histories first, one per key
+    out.sort(key=lambda v: (len(v[1]["steps"]), str(v[1]["steps"])))
+    seen, keep = set(), []
+    for v in out:
+        if v[0] not in seen:
+            seen.add(v[0])
+            keep.append(v)
+    return {"cov": cov, "viol": keep[:40], "nviol_extra": max(0, len(out) - len(keep[:40]))}
+
+
+def interleaved_items(quick):
+    items = []
+    for backend in ("file", "bytesio"):
+        # one and two append steps: every read at every read point
+        opts = il_append_options(3 if quick else 4, not quick)
+        for a in opts:
+            items.append((backend, [a], "full"))
+        for a in opts:
+            for b in opts:
+                items.append((backend, [a, b], "full"))
+        # three append steps: every read at the end, the short alphabet in between
+        opts3 = il_append_options(3, False)
+        if quick:
+            opts3 = [opts3[0], opts3[1], opts3[4]]          # append_msg(Tx), append_msg(NOPE), append_all([NOPE, 8-PSK])
+        for combo in itertools.product(opts3, repeat=3):
+            items.append((backend, [list(x) for x in combo], "small"))
+    return items
+
+
 def histories(nmax):
     yield ()
     for k in range(1, nmax + 1):
@@ -432,7 +667,17 @@ def run(ctx):
     items = [(h, nmax, ctx.quick) for h in histories(nmax)]
     for r in ctx.pmap(work, items, chunksize=8 if ctx.quick else 32):
         ctx.merge(r)
+    il = interleaved_items(ctx.quick)
+    found = []
+    for r in ctx.pmap(work_interleaved, il, chunksize=1):
+        found += r.pop("viol")
+        ctx.merge(r)
+    # the shortest history per key over the whole run
+    found.sort(key=lambda v: (len(v[1]["steps"]), str(v[1]["steps"]), v[0]))
+    for v in found:
+        ctx.violation(*v)
     c = ctx.cov
+    c["interleaved_work_items"] = len(il)
     c["menu"] = NMENU
     c["max_history"] = nmax
     c["ops_per_image"] = len(ops_for(nmax))
@@ -454,6 +699,19 @@ def run(ctx):
                     "to the record end and uncut images get the complete product)"
                     % ("all images" if ctx.quick else "images of 4-message histories cut inside the 4th record only - "
                        "every image of the <= 3-message histories gets the complete product", EDGE)))
+    c["rule"] += ("; INTERLEAVED leg: on one DATADumpFile object (a real file opened by path in a private directory under "
+                  "/verif/build, and a BytesIO) every history r0, A1, r1[, A2, r2[, A3, r3]]: append steps from %s; read "
+                  "steps r_i from {nothing, parse_msg(0..n+1), parse_all(), parse_all(skip in {None,0..n+1}, count in "
+                  "{None,1,2,n+1})} at every read point for one and two append steps and at the last read point for "
+                  "three append steps (read points in between: nothing, parse_msg(0), parse_msg(n-1), parse_all(), the "
+                  "short last page parse_all(n-1,2), parse_all(0,1), the page past the end parse_all(n,1)); r0 on the "
+                  "empty capture from {nothing, parse_all(), parse_msg(0)} (one and two append steps); every read is judged against the messages "
+                  "appended so far and a fresh reader checks the finished capture; each history runs with the file position "
+                  "forced to the end before every append (failures: key part reader-state) and, when that is clean, as "
+                  "plain API use (failures: key part append-position)"
+                  % ("{append_msg(m), append_all([m, m+1])} over a 3-entry menu (three append steps: 3 of these options)"
+                     if ctx.quick else "{append_msg(m), append_all([m, m'])} over a 4-entry menu (three append steps: "
+                     "{append_msg(m), append_all([m, m+1])} over 3 entries)"))
     c["exhaustive"] = True
     ctx.assumptions += [
         "io.BytesIO stands for the capture file (short read at EOF, seek past EOF allowed), as in DESIGN.md",
@@ -465,6 +723,23 @@ def run(ctx):
 
 
 def replay(ctx, case):
+    if case.get("leg") == "interleaved":
+        env()
+        out, stats = [], {"idx_beyond": {}, "skip_beyond": {}, "skip_at_end": {}}
+        cov = {"evaluations": 0, "distinct_nontrivial": 0, "interleaved_histories": 0, "interleaved_reads": 0}
+        directory = None
+        if case["backend"] == "file":
+            from vlib.runner import VERIF
+            directory = os.path.join(VERIF, "build", "c15.%d" % os.getpid())
+            os.makedirs(directory, exist_ok=True)
+        try:
+            run_interleaved(case["backend"], directory, case["steps"], out, cov, stats, bool(case.get("at_end")))
+        finally:
+            if directory:
+                shutil.rmtree(directory, ignore_errors=True)
+        for v in out:
+            ctx.violation(*v)
+        return
     hist = [int(x) for x in case["hist"]]
     nmax = int(case.get("nmax", 3))
     k = len(hist)
